@@ -62,6 +62,10 @@ type Pipe struct {
 	Opts PipeOpts
 	Tap  *Tap
 	A, B *End
+	// OnEvent runs inline, in the thread that put the n-th envelope (1-based,
+	// both directions counted together) on this wire.
+	OnEvent func(n int, dir string, rpc *Rpc)
+	nEvents int
 }
 
 // End is one side of a pipe; it implements goat.RpcReadWriter.
@@ -97,6 +101,10 @@ func NewPipe(tap *Tap, o PipeOpts) *Pipe {
 }
 
 func (p *Pipe) tap(dir string, rpc *Rpc) {
+	p.nEvents++
+	if p.OnEvent != nil {
+		defer p.OnEvent(p.nEvents, dir, rpc)
+	}
 	if p.Tap != nil {
 		p.Tap.Events = append(p.Tap.Events, TapEvent{Seq: len(p.Tap.Events), Wire: p.Opts.Name, Dir: dir, Rpc: proto.Clone(rpc).(*Rpc)})
 	}
